@@ -283,6 +283,21 @@ def check_C06(chk, tier, seed):
             chunks = [stream[i:j] for i, j in zip([0] + cuts, cuts + [len(stream)])]
             cases.append(f"SD g 5 {rs(chunks, 'e')}")
             expect.append(("read-large", want))
+    # two streams written by two futures of one thread: stream A takes a few octets and then nothing for an hour (virtual time), stream
+    # B is ready - B's message is on B at once, A's arrives whole in the end (implementation only)
+    e2cases, e2want = [], []
+    for k in range(6):
+        ma, mb = msgs[(3 * k) % len(msgs)], msgs[(3 * k + 1) % len(msgs)]
+        script = [[5, "t:36ee80", 1 << 20], ["t:36ee80", 1 << 20], [1, "p", "t:ea60", 3, "t:ea60", 1 << 20]][k % 3]
+        e2cases.append(f"SE2 {ma[0][2:]} {ws(script)} {mb[0][2:]}")
+        e2want.append(f"SE2 A ok {xb(ma[1])} B ok {xb(mb[1])} B@0")
+    for c, want, im in zip(e2cases, e2want, core.run_sharded([eng.harness, "codec"], eng.prelude, e2cases, shards=2, timeout=300)):
+        chk.case(c, True)
+        chk.validated += 1
+        chk.count("write-two-streams")
+        if im != want:
+            chk.violation("two messages written to two streams side by side: the ready stream did not receive exactly its message at once while the other stream was stalled "
+                          "(or the stalled one did not receive its message whole in the end)", dict(case=c, impl=short(im, 600), expected=short(want, 600)))
     # messages whose encoding is longer than the largest frame the READER accepts (1 MiB + 4, 1.5 MB, 4 MB): the writer has no such
     # limit - a message that encodes (below 16 MiB) is written, every octet (implementation only: no model run for megabytes)
     huge_lines = [f"H g NEW 110 4 0 {hx(0x70 + j)} 2 1 ADDAVP 3f3 - 0 L octz {hx(n)}" for j, n in enumerate([1048552, 1500000] + ([4000000] if tier == "thorough" else []))]
